@@ -13,7 +13,12 @@ Two ties:
 A dynamic violation the summary did not predict, or a predicted one that is expected to be a finding
 but cannot be reproduced, is a broken tie.
 """
+import os
 import time
+
+# tiny data: BLAS / OpenMP thread pools only add overhead (and nondeterministic summation order)
+for _v in ("OMP_NUM_THREADS", "OPENBLAS_NUM_THREADS", "MKL_NUM_THREADS"):
+    os.environ.setdefault(_v, "1")
 
 from .. import vlib
 from ..translate import gen, oracles, zoo
@@ -121,6 +126,23 @@ def correspond(ctx):
     compare_with_summaries(ctx, g, observed)
 
 
+_WRAPPERS = None
+
+
+def wrapper_classes():
+    """Classes that hold another query strategy as a constructor parameter."""
+    global _WRAPPERS
+    if _WRAPPERS is None:
+        _WRAPPERS = set()
+        for c in pool_cases():
+            try:
+                if any(hasattr(v, "query") for v in c.build().get_params(deep=False).values()):
+                    _WRAPPERS.add(c.cls_name)
+            except Exception:
+                pass
+    return _WRAPPERS
+
+
 def compare_with_summaries(ctx, g, observed):
     """Each dynamic disagreement with what the summary predicts is a broken tie."""
     exp = gen.load_expected()
@@ -135,7 +157,7 @@ def compare_with_summaries(ctx, g, observed):
         obs_other = {(k, n) for k, n in obs if k in ("model-altered", "array-modified")}
         # a wrapper's summary relies on the contract of its inner strategy (`callInner`): effects of a
         # defective inner strategy are attributed to that strategy's own obligation
-        modular = o.get("inner") and g["flips"]
+        modular = (o.get("inner") or o["cls"] in wrapper_classes()) and g["flips"]
         for p in sorted(obs_params - pred_params):
             if not pred_other:
                 msg = f"translator missed: {o['cls']}.query changes get_params()['{p}'] on the real code but its summary has no such write"
